@@ -257,6 +257,9 @@ func VerifC15_M_chain_lost_middle_blob() {
 func VerifC15_M_parallel_dependants() {
 	newWorld()
 	config.Global.NumWorkers = 2
+	if sym.Tier() == "thorough" {
+		config.Global.NumWorkers = 2 + sym.Choice("workers_minus_2", 2)
+	}
 	cmdModel["build-d"] = &cmdBehaviour{writes: map[string]string{"p/d.txt": "D"}}
 	dependant := func(name, prefix string) func() error {
 		return func() error {
@@ -278,11 +281,13 @@ func VerifC15_M_parallel_dependants() {
 		return []*model.Target{d, t1, t2}
 	}
 	ctx := context.Background()
+	sym.ExploreSchedules(false) // the first build only sets the cache up
 	e1, _ := fullExecutor(ctx, false, config.LoadOutputsAll, mk(""))
 	comps1, err1 := e1.Execute(ctx)
 	sym.Quiesce()
 	sym.Assert(!exitsNonZero(comps1, err1), "C15.P.setup-first-build")
 	sym.ProcessExit()
+	sym.ExploreSchedules(true)
 	// fresh checkout, both dependants edited; the dependency is unchanged (a cache hit)
 	for _, f := range []string{"p/d.txt", "p/t1.txt", "p/t2.txt"} {
 		_ = os.Remove(wsPath(f))
@@ -319,4 +324,51 @@ func VerifC15_M_parallel_dependants() {
 	}
 	sym.Assert(dRuns <= 1, "C15.P.dependency-runs-at-most-once")
 	sym.Reach("C15.P.parallel")
+}
+
+// The workspace may still hold a dependency's outputs from another state of the sources (an earlier
+// checkout, a reverted edit). A dependant that executes must see the outputs of the *current* state
+// in both modes - presence of a file at the output path says nothing about its content.
+func VerifC15_M_stale_dependency_output() {
+	w := newWorld()
+	cmdModel["build-d"] = &cmdBehaviour{writes: map[string]string{"p/d.txt": "current"}}
+	tcmd := func(prefix string) func() error {
+		return func() error {
+			b, err := os.ReadFile(wsPath("p/d.txt"))
+			if err != nil {
+				return err
+			}
+			return os.WriteFile(wsPath("p/t.txt"), []byte(prefix+string(b)), 0644)
+		}
+	}
+	cmdFuncs["build-t"], cmdFuncs["build-t-v2"] = tcmd("1:"), tcmd("2:")
+	mk := func(tCommand string) (*model.Target, *model.Target) {
+		d := fileTarget("d", "build-d", "d.txt")
+		t := fileTarget("t", tCommand, "t.txt")
+		t.Dependencies = append(t.Dependencies, d.Label)
+		return d, t
+	}
+	d1, t1 := mk("build-t")
+	p1 := w.newProcess(true, config.LoadOutputsAll, d1, t1)
+	_, e1 := p1.run(w.ctx, d1)
+	_, e2 := p1.run(w.ctx, t1)
+	sym.Assert(e1 == nil && e2 == nil, "C15.S.setup-first-build")
+	// what the workspace holds at the dependency's output path before the next build
+	switch sym.Choice("workspace_holds", 3) {
+	case 0:
+		_ = os.Remove(wsPath("p/d.txt"))
+	case 1:
+		_ = os.WriteFile(wsPath("p/d.txt"), []byte("stale"), 0644)
+	}
+	mode := modeOf(sym.Choice("mode", 2))
+	d2, t2 := mk("build-t-v2")
+	p2 := w.newProcess(true, mode, d2, t2)
+	before := ran("build-d")
+	_, e3 := p2.run(w.ctx, d2)
+	_, e4 := p2.run(w.ctx, t2)
+	sym.Assert(e3 == nil && e4 == nil, "C15.S.second-build-succeeds")
+	got, ok := readWS("p/t.txt")
+	sym.Assert(ok && got == "2:current", "C15.S.dependant-sees-current-dependency-output")
+	sym.Assert(ran("build-d") == before, "C15.S.cached-dependency-is-not-re-executed")
+	sym.Reach("C15.S.stale")
 }
